@@ -10,37 +10,67 @@
    byte-exact generator correspondence and judged on the reference machine. *)
 From Coq Require Import ZArith List String Bool.
 From Gigue Require Import Types Bits Isa Enc GenTables Builder BuilderTies Samplers Generator Machine MachineLemmas
-  SplitProofs FragProofs GenLemmas ImageSem CtorSpec C12Defs C12Proofs.
+  SplitProofs FragProofs GenLemmas ImageSem CtorSpec C12Defs C12Proofs GenWF GenWFProps SliceLemmas GenWF2 GenWF3 GenWF2Props Witness.
 Import ListNotations.
 Open Scope Z_scope.
 
 
-(* FULL statement (tiling): the JIT image is the concatenation of the
-   trampolines and the elements, every recorded address is the byte position. *)
-Definition id_size (ms : list method) (id : nat) : Z :=
-  match nth_error ms id with Some m => m_total m | None => 0 end.
-Fixpoint ids_tile (ms : list method) (ids : list nat) (addr : Z) : Prop :=
-  match ids with
-  | [] => True
-  | id :: tl =>
-      (exists m, nth_error ms id = Some m /\ m_addr m = addr /\ zlen (m_instrs m) = m_total m)
-      /\ ids_tile ms tl (addr + 4 * id_size ms id)
-  end.
-Definition ids_size (ms : list method) (ids : list nat) : Z := fold_right (fun id a => id_size ms id + a) 0 ids.
-Fixpoint tiles (ms : list method) (es : list elt) (addr : Z) : Prop :=
-  match es with
-  | [] => True
-  | EMethod id :: tl => ids_tile ms [id] addr /\ tiles ms tl (addr + 4 * id_size ms id)
-  | EPic p :: tl =>
-      p_addr p = addr /\ zlen (p_switch p) = switch_size (p_cases p) /\
-      ids_tile ms (p_methods p) (addr + 4 * switch_size (p_cases p)) /\
-      tiles ms tl (addr + 4 * (switch_size (p_cases p) + ids_size ms (p_methods p)))
-  end.
+(* PROVED (Layer A, GenWF2/GenWF3) for every accepted configuration, every
+   decision script and every image the model emits - no bound on the number
+   of elements, sizes or depths.
 
-Definition C04_tiling_statement : Prop :=
-  forall c script img, successful c script img ->
-  tiles (im_methods img) (im_elements img) (jit_start_al c + 4 * zlen (List.concat (im_tramps img)))
-  /\ 4 * zlen (im_int img) = jit_start_al c - int_start_al c.
+   tiles ms es a b : walking the element list from address a ends at b, where
+     - a method element's recorded address is the current address and the next
+       element starts m_total*4 bytes later;
+     - a PIC's recorded address is the current address, its switch has
+       3*cases+1 instructions, its case methods follow back to back, each at
+       its recorded address.
+
+   Hypothesis bodies_nonneg (every sized body length is >= 0) is what keeps
+   these two theorems `_partial`: the body length is ceil(size * (1 +/- v))
+   computed in binary64, and its sign is not yet derived from the SpecFloat
+   operations (it is checked on every image of the correspondence slice). *)
+Theorem C04_exact_tiling_partial : forall c script img,
+  successful c script img -> bodies_nonneg img ->
+  exists e, GenWF2.tiles (im_methods img) (im_elements img)
+                         (jit_start_al c + zlen (List.concat (im_tramps img)) * 4) e /\
+            jit_start_al c + zlen (im_jit img) * 4 = e /\
+            flat_map element_method_ids (im_elements img) = seq 0 (List.length (im_methods img)).
+Proof. exact jit_is_exact_tiling. Qed.
+
+(* every recorded element address equals the byte position of its first word in jit.bin *)
+Theorem C04_element_addresses_partial : forall c script img,
+  successful c script img -> bodies_nonneg img ->
+  forall es1 e es2, im_elements img = (es1 ++ e :: es2)%list ->
+  exists pre rest, im_jit img = (pre ++ elt_words (im_methods img) e ++ rest)%list /\
+                   jit_start_al c + zlen pre * 4 = elt_addr (im_methods img) e.
+Proof. exact element_address_is_position. Qed.
+
+(* PROVED, no side condition: the interpreter file is padded to exactly the
+   distance between the two (4-aligned) start addresses, and whenever an image
+   is produced the interpreter loop ends at or before the JIT start (otherwise
+   generation fails with an error instead of emitting files) *)
+Theorem C04_interpreter_padding : forall c script img,
+  successful c script img ->
+  zlen (im_int img) * 4 = jit_start_al c - int_start_al c /\
+  int_start_al c + zlen (im_int_instrs img) * 4 <= jit_start_al c /\
+  exists fill, im_int img = (map generate (im_int_instrs img) ++ fill)%list.
+Proof. exact interpreter_padding_exact. Qed.
+
+(* PROVED, no side condition: every callee of every method owns one slot inside
+   the method's body ([pro, pro+body)); slots are pairwise at least a call-size
+   apart (disjoint); the slot holds exactly the call stub built for
+   offset = callee's recorded address - slot address.
+     sites_ok c ms m := exists idx, Forall2 (site_ok c ms m) idx (m_callees m) /\ disjoint_slots (m_call_size m) idx
+     site_ok c ms m i cal := exists cm stub, nth_error ms cal = Some cm /\
+        method_base_call (variant) (m_addr cm - (m_addr m + i*4)) = OK stub /\
+        window (m_instrs m) i (length stub) = stub /\ m_pro m <= i /\ i + m_call_size m <= m_pro m + m_body m *)
+Theorem C04_call_sites : forall c script img,
+  successful c script img -> Forall (sites_ok c (im_methods img)) (im_methods img).
+Proof. exact call_sites_exact. Qed.
+
+Theorem C04_nonvacuous : exists img, successful wcfg_fixer wscript_fixer img /\ bodies_nonneg img.
+Proof. exact witness_nonneg_fixer. Qed.
 
 (* fragment lengths are exactly the sizes Method.__init__ and the generators
    assume (a mis-sized element would shift everything after it), and call /
@@ -91,6 +121,11 @@ Theorem C04_switch_targets_partial : forall v L s P n moff hit cmp,
     (forall r, 0 <= r -> r <> cmp -> rget s' r = rget s r).
 Proof. exact switch_case_hit. Qed.
 
+Print Assumptions C04_exact_tiling_partial.
+Print Assumptions C04_element_addresses_partial.
+Print Assumptions C04_interpreter_padding.
+Print Assumptions C04_call_sites.
+Print Assumptions C04_nonvacuous.
 Print Assumptions C04_fragment_sizes_partial.
 Print Assumptions C04_slots_disjoint_partial.
 Print Assumptions C04_patch_population_partial.
